@@ -646,6 +646,7 @@ func runC17(c *mon.Ctx) {
 						}
 					}
 				}
+				Scribble(reflect.ValueOf(resp))
 				resp.Assertions = resp.Assertions[:0]
 			}
 			if ai, err := sp.RetrieveAssertionInfo(enc); err == nil {
@@ -693,6 +694,7 @@ func runC17(c *mon.Ctx) {
 			m1.EntityID = "mutated"
 			m1.SPSSODescriptor.KeyDescriptors = m1.SPSSODescriptor.KeyDescriptors[:0]
 			m1.SPSSODescriptor.AssertionConsumerServices[0].Location = "mutated"
+			Scribble(reflect.ValueOf(m1))
 			m2, _ := sp.Metadata()
 			b2, _ := xml.Marshal(m2)
 			if string(b1) != string(b2) {
